@@ -42,6 +42,7 @@ TRUSTED = ["mpmath 1.3 at 50 digits (exp, log, erf, erfinv, gamma, loggamma, gam
            "reference of the definitions; self-test in finalize"]
 
 EPSF = 2.0 ** -53
+K_MB = 64          # ulps of the two cancelling terms of CDF_Maxwell_Boltzmann (calibrated: worst observed on the unchanged tree x16)
 K_ERF = 4          # ulps of a double erf value near +-1 that the root of erf(x) - y cannot resolve
 K_EXP = 64         # relative K*eps*(size of the exponent) for exp-type formulas
 FLOOR = 1e-290     # absolute floor (underflow)
@@ -290,6 +291,18 @@ def generate(tier, seed, ctx):
         x = rng.choice([0.0, -1.0, -1e-300, m * rng.uniform(0, 5), m * 10.0 ** rng.uniform(-12, 2.8)])
         for op in ("exp_pdf", "exp_cdf", "mb_pdf", "mb_cdf"):
             R.append("c07.%s %s %s" % (op, hx(x), hx(m)))
+    # small arguments, where the closed forms cancel (x/a in [1e-5,1e-1]): pairs 1e-8 apart (relative) straddling candidate
+    # switch points x/a = 10^-k, 2^-k and random ones -- the CDF is compared at the rounding noise of its own formula
+    # (i.e. relatively to the CDF, not to an absolute floor) and must not decrease across a pair
+    ctx["pairs"] = []
+    cands = [10.0 ** -k for k in range(1, 6)] + [2.0 ** -k for k in range(4, 17)] + [10.0 ** rng.uniform(-5, -1) for _ in range(6 * n1)]
+    for sc in [1.0, 2.5, 10.0 ** rng.uniform(-3, 3)] + [10.0 ** rng.uniform(-6, 6) for _ in range(n1)]:
+        for c in cands:
+            for op in ("mb_cdf", "exp_cdf"):
+                r1 = "c07.%s %s %s" % (op, hx(c * (1 - 5e-9) * sc), hx(sc))
+                r2 = "c07.%s %s %s" % (op, hx(c * (1 + 5e-9) * sc), hx(sc))
+                R.append(r1); R.append(r2)
+                ctx["pairs"].append((op, c, sc, r1, r2))
     for m in (0.0, -1.0, -1e-300):
         for op in ("exp_pdf", "exp_cdf", "mb_pdf", "mb_cdf"):
             R.append("c07.%s %s %s" % (op, hx(1.0), hx(m)))
@@ -540,6 +553,12 @@ def _check(op, a, ti, mt, ctx):
             _val(ctx, out, name, v, ref, ref * K_EXP * EPSF * (e + 8) + FLOOR)
         else:
             _val(ctx, out, name, v, ref, 8 * EPSF)
+            t = float(X / Mm) if x >= 0 else 0.0
+            if nm == "mb_cdf" and 1e-5 <= t <= 1e-1:
+                # rounding noise of erf(t/sqrt2) - sqrt(2/pi) t exp(-t^2/2): a few ulp of the two terms (~0.8 t), relative ~ eps/t^2
+                if not ratio(ctx, "CDF_Maxwell_Boltzmann small argument, at the noise of its formula", abs(mpf(v) - ref), K_MB * EPSF * 0.8 * t):
+                    out.append(fail("prop", "CDF_Maxwell_Boltzmann differs from its definition beyond the rounding of its formula (small x/a)",
+                                    "x/a=%r got %r, definition %s (relative error %.3g)" % (t, v, mpmath.nstr(ref, 17), float(abs(mpf(v) - ref) / ref))))
         lowest = -8 * EPSF * float(abs(mpmath.erf(X / (mpmath.sqrt(2) * Mm)))) if nm == "mb_cdf" else 0.0   # two nearly equal terms are subtracted
         if v < lowest or (nm.endswith("cdf") and v > 1) or math.isnan(v):
             out.append(fail("prop", name + " negative or above one", repr(v)))
@@ -622,6 +641,15 @@ def finalize(ctx, exe):
        abs(mpmath.quad(lambda t: d_gauss_pdf(t, mpf(0), mpf(1))[0], [-1, 0, 1]) - mpmath.erf(1 / mpmath.sqrt(2))) > mpf(10) ** -30:
         out.append(fail("corr", "internal: mpmath reference fails its self-test", ""))
     res = ctx["res"]
+    for op, c, sc, r1, r2 in ctx.get("pairs", []):
+        v1, v2 = res.get(r1), res.get(r2)
+        if v1 is None or v2 is None or tag(v1) != "ok" or tag(v2) != "ok":
+            continue
+        v1, v2 = fl(toks(v1)[0]), fl(toks(v2)[0])
+        noise = K_MB * EPSF * 0.8 * c if op == "mb_cdf" else 4 * EPSF
+        if not ratio(ctx, "CDF non-decreasing across a pair 1e-8 apart (%s)" % op, max(0.0, v1 - v2), noise):
+            out.append(dict(fail("prop", "CDF decreases between two close arguments (%s)" % op,
+                                 "x/scale=%r: %r -> %r (down by %.3g relative)" % (c, v1, v2, (v1 - v2) / max(v1, 1e-300))), req=r2))
     for kind, pars, xs, reqs in ctx["grids"]:
         vals = []
         for r in reqs:
